@@ -26,7 +26,8 @@ var ints = []int{0, -1, 999999999, -999999999, 9999999999, 42}
 var strs = []string{"", "a", strings.Repeat("x", 50), "héllo wörld ✓", "inner  spaces here", "Z", " lead", "trail ",
 	"caf\xe9", "\xff\xfe\x80", "ab\xe2\x82", // these three are not valid UTF-8 (Latin-1, raw high bytes, a truncated sequence)
 	"tab\t", "\tlead", "line\n", "cr\r", "nb\u00a0", "\u00a0nb", "em\u2003"} // white space other than the blank at either end
-var floats = []float64{0, -1.5, 1.0 / 3.0, 1e10, 123456789.1234567891, -0.0000000001}
+var floats = []float64{0, -1.5, 1.0 / 3.0, 1e10, 123456789.1234567891, -0.0000000001,
+	1e18, 9223372036854775808, -1e17} // the last three fill the 30-character field exactly (19 digits; 18 digits and a sign)
 
 type attrs struct {
 	I int
@@ -491,7 +492,7 @@ func main() {
 		return
 	}
 	rep = report.New("C16", tier, "model_checking")
-	rep.Rule = "E1: for each of Point, MultiPoint, LineString, MultiLineString, Polygon, *Bounds: every shape with 1..3 parts/rings x 1..3 vertices (rings closed, closed with the closing vertex twice, and unclosed, both windings by rotation of the pattern list, every fourth rotation with a repeated consecutive vertex in every part) with coordinates from 19 finite float64 patterns, as single records, ordered pairs and triples of a reduced shape list, the empty file, files of 100 records and records with parts of up to 300 vertices / 40 parts; attributes int {0,-1,+-999999999,9999999999,42}, string {empty, 1 byte, 50 bytes, UTF-8, inner spaces, leading/trailing space, three byte strings that are not valid UTF-8, a tab / line feed / carriage return / no-break space / em space at either end}, float {0,-1.5,1/3,1e10,123456789.1234567891,-1e-10}; multi-line strings also with empty parts after the first; the struct API (tags/names in different letter case between writer and reader; for every type also a record type whose last field is the geometry, for points also a record type whose last field is the string, and one in which the Go name of a field is the tag of another), the field API, both with attribute names of 11 bytes too, and the field API with geometry-only reads (no field names) on every other record. the struct and field APIs again with the written geometries cut from flat vertex buffers (not written to). Oracle: same number and order of records, every returned geometry and attribute map still intact after the last row, bit-identical coordinates part by part (unclosed rings closed, boxes as 5-vertex rectangles), ints equal, strings equal, floats within 1e-10. Non-trivial = files with >= 2 records or >= 2 parts."
+	rep.Rule = "E1: for each of Point, MultiPoint, LineString, MultiLineString, Polygon, *Bounds: every shape with 1..3 parts/rings x 1..3 vertices (rings closed, closed with the closing vertex twice, and unclosed, both windings by rotation of the pattern list, every fourth rotation with a repeated consecutive vertex in every part) with coordinates from 19 finite float64 patterns, as single records, ordered pairs and triples of a reduced shape list, the empty file, files of 100 records and records with parts of up to 300 vertices / 40 parts; attributes int {0,-1,+-999999999,9999999999,42}, string {empty, 1 byte, 50 bytes, UTF-8, inner spaces, leading/trailing space, three byte strings that are not valid UTF-8, a tab / line feed / carriage return / no-break space / em space at either end}, float {0,-1.5,1/3,1e10,123456789.1234567891,-1e-10, 1e18, 2^63, -1e17 (these fill the 30-character field)}; multi-line strings also with empty parts after the first; the struct API (tags/names in different letter case between writer and reader; for every type also a record type whose last field is the geometry, for points also a record type whose last field is the string, and one in which the Go name of a field is the tag of another), the field API, both with attribute names of 11 bytes too, and the field API with geometry-only reads (no field names) on every other record. the struct and field APIs again with the written geometries cut from flat vertex buffers (not written to). Oracle: same number and order of records, every returned geometry and attribute map still intact after the last row, bit-identical coordinates part by part (unclosed rings closed, boxes as 5-vertex rectangles), ints equal, strings equal, floats within 1e-10. Non-trivial = files with >= 2 records or >= 2 parts."
 	tmpRoot = "/dev/shm"
 	if st, err := os.Stat(tmpRoot); err != nil || !st.IsDir() {
 		tmpRoot = os.TempDir()
@@ -625,6 +626,17 @@ func main() {
 			for k := 0; k < 24; k++ {
 				jobs = append(jobs, job{kind, []rec{{build(0, 0), attrs{ints[k%len(ints)], strs[(k/2)%len(strs)], floats[(k/3)%len(floats)]}}, {build(0, 3), attrsFor(k)}}, api})
 			}
+		}
+	}
+	// records whose geometry has no vertex, between ordinary ones: they are
+	// records all the same (number and order of the rows, attributes)
+	for kind, empty := range map[string]geom.Geom{"MultiPoint": geom.MultiPoint{}, "MultiLineString": geom.MultiLineString{}, "Polygon": geom.Polygon{}} {
+		for _, api := range []string{"struct", "fields"} {
+			a, b := mk(shapes[kind][0], 1), mk(shapes[kind][1%len(shapes[kind])], 4)
+			jobs = append(jobs,
+				job{kind, []rec{{a, attrsFor(1)}, {empty, attrsFor(2)}, {b, attrsFor(3)}}, api},
+				job{kind, []rec{{empty, attrsFor(4)}, {a, attrsFor(5)}}, api},
+				job{kind, []rec{{a, attrsFor(6)}, {empty, attrsFor(7)}}, api})
 		}
 	}
 	// sizes: files of 100 records, and records with long parts / many parts
